@@ -39,6 +39,7 @@ type emitter struct {
 	idxFirst   string
 	resultRet  bool
 	appendAcc  *ssa.Phi // result grown by append (no indexed stores)
+	writeLV    *Term    // the loop variable that indexes the result in the loop (offset 0)
 }
 
 // canonical rendering of a term independent of the enclosing function (params by index, loop vars by role)
@@ -347,6 +348,9 @@ func analyseEmitter(c *Ctx, rule string, fi *FuncInfo, callbackParam int) *emitt
 		em.idxFirst = c13Poly(ToPoly(li.Init[wPhi]).Add(polyConst(wOff), 1), nil, fn)
 		em.loopWrites = c13Poly(ToPoly(back.Next[wPhi]).Add(ToPoly(li.LV[wPhi]), -1), nil, fn)
 		em.allocLen = ToPoly(bodyEm[0].res.Args[0])
+		if wOff == 0 {
+			em.writeLV = li.LV[wPhi]
+		}
 	}
 	// rows before the loop, and exit rows
 	var guardRows, tailRows [][]string
@@ -670,6 +674,10 @@ func runC13(c *Ctx) {
 				if hasTail {
 					if L != "1· + "+div {
 						why = "with a remainder the result has " + L + " elements, the loop writes len/size and the tail one more"
+					} else if em.writeLV != nil && em.idxFirst == "" && em.loopWrites == "1·" && tIdx.Equal(ToPoly(em.writeLV)) {
+						// the tail goes where the write counter stands after the loop: it started at 0 and went up
+						// by one per written piece, and the loop writes len/size pieces (partition-shape; trip
+						// count lemma chunk_loop_trip)
 					} else if c13Poly(tIdx, nil, fn) != div {
 						why = "the tail is written at index " + c13Poly(tIdx, nil, fn) + ", expected len/size"
 					}
